@@ -3,11 +3,14 @@ From Coq Require Import List NArith Bool.
 Import ListNotations.
 From HV Require Import Lib.Bytes Lib.Harness Model.Prefixes.
 
-Record case := mk { c_h : bytes; c_f : bytes; c_t : bytes; c_vm : list bytes; c_impl : bool }.
+Record case := mk { c_h : bytes; c_f : bytes; c_t : bytes; c_vm : list bytes; c_impl : bool;
+  (* the call left the caller's slice intact (its whole backing array, which the driver allocates with spare
+     capacity) and a second call on the same, and on a longer, view of that array answered as a fresh call does *)
+  c_intact : bool }.
 
 (* model = implementation *)
 Definition check_case (c : case) : bool :=
-  Bool.eqb (has_conflicting_prefixes (c_h c) (c_f c) (c_t c) (c_vm c)) (c_impl c).
+  Bool.eqb (has_conflicting_prefixes (c_h c) (c_f c) (c_t c) (c_vm c)) (c_impl c) && c_intact c.
 
 (* the property itself, executable and independent of the model's loop: quadratic scan of all
    ordered pairs of distinct positions *)
@@ -19,4 +22,4 @@ Fixpoint pair_scan (before : list bytes) (l : list bytes) : bool :=
   end.
 
 Definition spec_ok (c : case) : bool :=
-  Bool.eqb (pair_scan [] ([c_h c; c_f c; c_t c] ++ c_vm c)) (c_impl c).
+  Bool.eqb (pair_scan [] ([c_h c; c_f c; c_t c] ++ c_vm c)) (c_impl c) && c_intact c.
